@@ -80,14 +80,6 @@ var otChoices = [][]byte{{0x00, 0x00}, {0xff, 0xff}, {0xa5, 0x3c}}
 
 func otProtocols() []*otProto {
 	ids := []proto.ID{1, 2}
-	ctxsFor := func(seed uint64, label string) map[proto.ID]any {
-		c, err := proto.Contexts(ids, seed, label)
-		if err != nil {
-			panic("harness: " + err.Error())
-		}
-		return map[proto.ID]any{1: c[1], 2: c[2]}
-	}
-	_ = ctxsFor
 	var out []*otProto
 
 	// --- ecbbot over k256
@@ -150,7 +142,11 @@ func otProtocols() []*otProto {
 			if err != nil {
 				panic("harness: " + err.Error())
 			}
-			type P, B, S = *k256.Point, *k256.BaseFieldElement, *k256.Scalar
+			type (
+				P = *k256.Point
+				B = *k256.BaseFieldElement
+				S = *k256.Scalar
+			)
 			var snd *vsot.Sender[P, B, S]
 			var rcv *vsot.Receiver[P, B, S]
 			if !res.step("S", "New", rs, func() (any, error) { snd, err = vsot.NewSender(ctxs[1], suite, rs); return nil, err }) {
@@ -226,10 +222,16 @@ func otProtocols() []*otProto {
 				var snd *softspoken.Sender
 				var rcv *softspoken.Receiver
 				// the OT receiver of the extension holds the base SENDER seeds (roles are swapped)
-				if !res.step("R", "New", rr, func() (any, error) { rcv, err = softspoken.NewReceiver(ctxs[2], senderSeeds, suite, rr); return nil, err }) {
+				if !res.step("R", "New", rr, func() (any, error) {
+					rcv, err = softspoken.NewReceiver(ctxs[2], senderSeeds, suite, rr)
+					return nil, err
+				}) {
 					return res
 				}
-				if !res.step("S", "New", rs, func() (any, error) { snd, err = softspoken.NewSender(ctxs[1], receiverSeeds, suite, rs); return nil, err }) {
+				if !res.step("S", "New", rs, func() (any, error) {
+					snd, err = softspoken.NewSender(ctxs[1], receiverSeeds, suite, rs)
+					return nil, err
+				}) {
 					return res
 				}
 				var r1 *softspoken.Round1P2P
@@ -310,7 +312,7 @@ func checkOT(t vlib.Fataler, test string, p *otProto, x string, ctxSeed uint64, 
 			t.Fatalf("P6 %s: party %s completed without reading its random source [%s]", p.name, w, what)
 		}
 	}
-	// P5: these protocols are single-threaded (50 identical-stream runs agreed on the unchanged tree)
+	// P5: these round functions are single-threaded (no goroutine in pkg/ot); replay is asserted in every case
 	A2 := run(seedS, seedR, "", 0)
 	if ok, diff := sameMsgs(A.msgs, A2.msgs); !ok || A2.err != nil {
 		t.Fatalf("P5 %s: two runs on identical streams differ: %s (err=%v) [%s]", p.name, diff, A2.err, what)
